@@ -68,6 +68,20 @@ prop('C06',
           '(exact result or refusal exactly when out of +/-(2^63-1) ms; result invariant on every path; truncation toward zero; '
           'division within 2 ns); the derived ordering is proved equal to numeric order by Kani + a Verus lemma.')
 
+prop('C08',
+     title='Month stepping, field replacement and week helpers follow calendar rules',
+     verus=['week', 'time'],
+     kani=['vk_date_with_month', 'vk_date_with_day', 'vk_date_with_ordinal', 'vk_date_with_year', 'vk_date_add_months', 'vk_date_sub_months',
+           'vk_date_weekday_of_month', 'vk_date_years_since', 'vk_date_quarter_ce_dim', 'vk_month_num_days',
+           'vk_ndt_accessors', 'vk_ndt_with_date_fields', 'vk_ndt_with_time_fields', 'vk_ndt_months', 'vk_mdf_from_ol_with'],
+     uncovered=['DateTime<Tz>::with_* / checked_add_months / checked_sub_months (go through map_local closures and the time-zone lookup)',
+                'NaiveWeek::checked_days / days (RangeInclusive construction from the two proved ends)', 'NaiveWeek::first_day/last_day (expect wrappers)',
+                'DateTime::years_since'],
+     text='Kani proves, for every valid date and every u32/i32 replacement value, with_year/month/month0/day/day0/ordinal/ordinal0 (exactly the named field changes, '
+          'None exactly when no such date exists), checked_add/sub_months (year-month moves by N, day clamped, fails only out of range, Months(0) identity), '
+          'from_weekday_of_month_opt, years_since, quarter, year_ce, num_days_in_month, weeks_from, Month::num_days, and the NaiveDateTime forms (other part kept). '
+          'Verus proves NaiveTime::with_* and NaiveWeek::checked_first_day/checked_last_day (starts on the chosen weekday, at most six days earlier, spans seven days).')
+
 prop('C17',
      title='Rounding and truncation land on the right multiple',
      verus=['round'],
@@ -97,7 +111,7 @@ prop('C19',
 # properties not (or not yet) claimed: every id of properties.jsonl is either in PROPS or here
 NOT_APPLICABLE = {
     'C04': 'not built yet', 'C05': 'not built yet',
-    'C08': 'not built yet', 'C10': 'not built yet', 'C12': 'not built yet',
+ 'C10': 'not built yet', 'C12': 'not built yet',
     'C14': 'not built yet', 'C15': 'not built yet', 'C16': 'not built yet',
     'C09': 'print->parse round trip lives in core::fmt and &str scanning with iterator adapters: no function contract within reach of Verus (no str bytes) and only bounded exploration in Kani, which is another technique',
     'C11': 'RFC 2822 reader/writer is a hand-written scanner over arbitrary strings (comments, name tables, String building): only bounded string exploration is possible',
